@@ -35,7 +35,7 @@ Fixpoint mode_wf (m : mode) : Prop :=
 Lemma bal_plain t stk : (forall p, t = TP p -> p <> PLPar /\ p <> PRPar /\ p <> PLBrk /\ p <> PRBrk /\ p <> PLBrc /\ p <> PRBrc) ->
   bal_step stk t = Some stk.
 Proof.
-  intro H. destruct t as [x|k x|x| |p]; try reflexivity.
+  intro H. destruct t as [x|k x|x| |p|nlt]; try reflexivity.
   destruct (H p eq_refl) as (H1 & H2 & H3 & H4 & H5 & H6). destruct p; try reflexivity; congruence.
 Qed.
 
@@ -43,7 +43,7 @@ Lemma pat_plain_tok p t : pat_plain p = true -> pat_match p t = true ->
   forall q, t = TP q -> q <> PLPar /\ q <> PRPar /\ q <> PLBrk /\ q <> PRBrk /\ q <> PLBrc /\ q <> PRBrc.
 Proof.
   intros Hp Hm q ->. destruct p as [t'| |]; cbn in Hm; try discriminate.
-  destruct t' as [x|k x|x| |p']; cbn in Hm; try discriminate.
+  destruct t' as [x|k x|x| |p'|nlt]; cbn in Hm; try discriminate.
   destruct p', q; cbn in Hp, Hm; try discriminate; repeat split; discriminate.
 Qed.
 
@@ -78,16 +78,16 @@ Lemma js_step_bal md m s t m' s' d : mode_wf m -> js_step md m s t = Some (m', s
 Proof.
   intros W. destruct m; cbn [js_step].
   - apply step_stmt_bal.
-  - intro H. destruct t as [x|k x|x| |p]; try discriminate H; [destruct k|destruct p]; try discriminate H; apply step_stmt_bal in H; exact H.
+  - intro H. destruct t as [x|k x|x| |p|nlt]; try discriminate H; [destruct k|destruct p]; try discriminate H; apply step_stmt_bal in H; exact H.
   - unfold cfg, seq1. intro H. crack H.
   - apply step_want_bal.
   - apply step_have_bal.
   - unfold cfg. intro H. crack H.
   - unfold cfg, seq1. intro H. crack H.
-  - intro H. destruct t as [x|k x|x| |p]; try (apply step_have_bal in H; exact H).
+  - intro H. destruct t as [x|k x|x| |p|nlt]; try (apply step_have_bal in H; exact H).
     destruct p; try (apply step_have_bal in H; exact H); unfold cfg in H; crack H.
   - unfold cfg. intro H. crack H.
-  - intro H. destruct t as [x|k x|x| |p]; try (apply step_want_bal in H; exact H).
+  - intro H. destruct t as [x|k x|x| |p|nlt]; try (apply step_want_bal in H; exact H).
     destruct k; try (apply step_want_bal in H; exact H).
     destruct s; [|apply step_want_bal in H; exact H]. unfold cfg, m_params, seq1 in H. crack H.
   - unfold cfg, m_params, seq1. intro H. crack H.
@@ -100,7 +100,7 @@ Proof.
     destruct (pat_match p t) eqn:Em; [|discriminate].
     destruct W as [(q & Eps & Epush & Hq)|(Hpl & Epush)].
     + inversion Eps; subst. unfold cfg. intro H; inversion H; subst. split; [exact Wn|].
-      cbn in Em. destruct t as [x|k x|x| |p']; try discriminate. cbn in Em.
+      cbn in Em. destruct t as [x|k x|x| |p'|nlt]; try discriminate. cbn in Em.
       destruct push as [f|]; cbn in Epush; [|discriminate].
       unfold brs. cbn [flat_map]. rewrite Epush.
       destruct Hq as [->|[->| ->]]; destruct p'; try discriminate; reflexivity.
